@@ -145,6 +145,11 @@ def byLabel (w : W) (e : Ev) : List (List WA) :=
   | "rng" => [[.chk fun w => w.st.running]]
   | "cx" => [[.m .cancelExt]]
   | "wce" => [[.chk fun w => w.st.closeErr]]
+  | "qs" =>
+    -- no goroutine of the router is left: every spawned pump / loop / handleClose / watcher has finished, Run has returned
+    [[.chk fun w => w.st.hs.all (fun x => (x.pump == .off || x.pump == .done) && (x.loop == .off || x.loop == .done) &&
+                      (x.hc == .off || x.hc == .done)) &&
+                    (w.st.watch == .off || w.st.watch == .done) && (w.st.run == .idle || w.st.run == .ret)]]
   | "go" | "rel" | "fin" => [[]]
   | _ => []
 
